@@ -166,7 +166,7 @@ def shrink(c):
         if 0 < m < n:
             d = dict(c)
             d["n"] = m
-            d["large"] = False
+            d["large"] = m > 300 or m * c["t"] > 30000      # only small instances are evaluated inside Coq
             yield d
     if c["t"] > 1:
         d = dict(c)
